@@ -58,6 +58,16 @@ func runC08(outDir string, seed int64, tier string) {
 				c = b
 			}
 		}
+		if s, ok := isCharList(a); ok && g.r.coin(0.5) { // the code list of the same (or a neighbouring) text
+			var es []*G
+			for _, ch := range s {
+				es = append(es, gi(int64(ch)))
+			}
+			if g.r.coin(0.3) && len(es) > 0 {
+				es[len(es)-1] = gi(int64([]rune("abc")[g.r.intn(3)]))
+			}
+			b = glist(es, nil)
+		}
 		key := a.text() + " ? " + b.text()
 		if !seen[key] {
 			seen[key] = true
